@@ -17,7 +17,7 @@ structure AInv (s : St) : Prop where
   pre : s.spc.preAbort = true → s.fwds = []
   ex : s.exited.isSome = true → s.spc = .exiting ∧ s.exited = some 1
 
-theorem ainv_init (v : Variant) (g : Bool) (f n : Nat) (b : Bool) (t0 : Nat) : AInv (init v g f n b t0) := by
+theorem ainv_init (v : Variant) (g sw : Bool) (f n : Nat) (b : Bool) (t0 : Nat) : AInv (init v g sw f n b t0) := by
   refine ⟨?_, ?_, ?_⟩ <;> simp [init]
 
 theorem readingUpTo_congr {ts ts' : List TS} (h : ∀ j, ts'.getD j .new = ts.getD j .new) (k : Nat) :
@@ -77,6 +77,7 @@ theorem ainv_step {s s' : St} {l : Label} (h : Inv s) (ha : AInv s) (hs : step s
   have hex : ∀ {t : St}, t.exited = s.exited → t.exited.isSome = true → False := by
     intro t ht hc; rw [ht, hx] at hc; cases hc
   cases l with
+  | g a => rw [g_step_frame (step_wd hs)]; exact ⟨a1, a2, a3⟩
   | e a =>
     obtain ⟨hws, hts, _, _, _, _, _, _, _, hspc⟩ := e_step_frame (step_e hs)
     have hf : s'.fwds = s.fwds ∧ s'.exited = s.exited := by
@@ -214,8 +215,8 @@ theorem ainv_exec {s0 s : St} {ls : List Label} (h0 : Inv s0) (a0 : AInv s0) (he
   | nil => exact a0
   | snoc he' hs ih => exact ainv_step (inv_exec h0 he') ih hs
 
-theorem ainv_reach {v g f n b t0 s} (h : Reach v g f n b t0 s) : AInv s := by
-  obtain ⟨ls, he⟩ := h; exact ainv_exec (inv_init v g f n b t0) (ainv_init v g f n b t0) he
+theorem ainv_reach {v g sw f n b t0 s} (h : Reach v g sw f n b t0 s) : AInv s := by
+  obtain ⟨ls, he⟩ := h; exact ainv_exec (inv_init v g sw f n b t0) (ainv_init v g sw f n b t0) he
 
 /-- rank of the abort path: the number of operations the signals thread still performs before `exit` -/
 def arank (s : St) : Nat :=
